@@ -566,9 +566,13 @@ class C16(BaseCheck):
                 c = copy.deepcopy(case)
                 c['ops'][j]['pairs'] = o['pairs'][:-1]
                 yield c
-            if isinstance(o.get('v'), dict):
+            if isinstance(o.get('v'), dict) and 'list' in o['v']:
                 c = copy.deepcopy(case)
                 c['ops'][j]['v'] = o['v']['list']
+                yield c
+            if isinstance(o.get('v'), dict) and 'cml' in o['v']:
+                c = copy.deepcopy(case)
+                c['ops'][j]['v'] = {'cm': o['v']['cml']}
                 yield c
 
     def post_sweep(self, agg):
